@@ -312,7 +312,7 @@ func distinctConstructs(obs []Obligation) int {
 // sampleObs picks up to n obligations: every non-discharged one first, then a
 // spread over the rules.
 func sampleObs(obs []Obligation, n int) []Obligation {
-	var out []Obligation
+	out := []Obligation{}
 	seen := map[string]int{}
 	for _, o := range obs {
 		if o.Status == stViolated || o.Status == stUndecided {
